@@ -24,7 +24,7 @@ static int n_mmap, n_munmap, n_open, n_close, bad_unmap, bad_crc_range, bad_madv
 static int verif_fstat(int fd, struct stat *ss)
 {
 	(void)fd;
-	memset(ss, 0, sizeof(*ss));
+	/* no memset: CBMC would lose constant propagation of st_size through the array_set model */
 	ss->st_size = LEN;
 	return 0;
 }
